@@ -65,7 +65,7 @@ func edAbsStepLine(work bool, start *edDirs, ops []edOp) string {
 }
 
 // edEmitModelOps: which op lines are sent to the Lean driver (and compared).
-var edEmitAbs = false
+var edEmitAbs = true
 var edEmitSession = false
 
 func edGenCommon(g *Gen, n int, salt int) {
